@@ -197,6 +197,25 @@ def run(chk):
             if not np.array_equal(P @ Lm.conj() @ P, Lm):
                 chk.fail("liouvillian-herm", f"{api}.liouvillian does not preserve Hermiticity", info)
 
+    # ---- (a2) the tabulated states and operators handed out by oqupy.operators are what their names say ----------------
+    sig = {a: opr.sigma(a) for a in "xyz"}
+    for key in ("up", "down", "z+", "z-", "x+", "x-", "y+", "y-", "mixed"):
+        r = np.array(opr.spin_dm(key))
+        chk.search_cases += 1
+        want = {"up": ("z", 1), "down": ("z", -1), "mixed": None}.get(key, (key[0], 1 if key.endswith("+") else -1) if key not in ("up", "down", "mixed") else None)
+        ok = abs(np.trace(r) - 1) < 1e-15 and np.array_equal(r, r.conj().T) and np.linalg.eigvalsh(r).min() > -1e-15
+        if want is not None:
+            ok = ok and abs(np.trace(r @ sig[want[0]]) - want[1]) < 1e-15 and abs(np.trace(r @ r) - 1) < 1e-15
+        else:
+            ok = ok and np.array_equal(r, np.eye(2) / 2)
+        if not ok:
+            chk.fail("spin-dm-table", f"oqupy.operators.spin_dm('{key}') is not the (pure, normalised) state its name says", {"key": key})
+    for a, b, c in (("x", "y", "z"), ("y", "z", "x"), ("z", "x", "y")):
+        chk.search_cases += 1
+        if not np.array_equal(sig[a] @ sig[b] - sig[b] @ sig[a], 2j * sig[c]) or not np.array_equal(sig[a] @ sig[a], np.eye(2)):
+            chk.fail("sigma-table", f"oqupy.operators.sigma: [s{a}, s{b}] != 2i s{c} or s{a}^2 != 1", {"axes": a + b + c})
+    chk.count("operator_tables")
+
     # ---- (b2) two-site generators of SystemChain (add_nn_hamiltonian / add_nn_dissipation, any rate): they are the
     # Lindbladian of the joint space with operator A (x) B, up to the library's leg order ((i_l j_l),(i_r j_r)) ----------
     for it in range(40 if thorough else 14):
